@@ -214,6 +214,8 @@ def _changed(kind, steps, svals, multi=False):
                 if multi:
                     # one event announcing several options; the option under test is not the last one named
                     xname, xkind, xvals = ('NumCPUs', 'int', [str(8 + n)]) if kind == 'str' else ('Nickname', 'str', ['nick%d' % n])
+                    if n % 2:
+                        xvals = None      # ... and at odd steps that second option is announced bare (it was reset)
                     tor.options[xname]['values'] = xvals
                     changes.append((xname, xvals))
                 tor.say(*tor.conf_changed_lines(changes))
@@ -222,7 +224,7 @@ def _changed(kind, steps, svals, multi=False):
                 if r:
                     return r
                 if multi:
-                    r = check_option(cfg, xname, xkind, xvals, None)
+                    r = check_option(cfg, xname, xkind, xvals, {'Nickname': ['Unnamed'], 'NumCPUs': ['0']}[xname])
                     if r:
                         return R('second-option-of-the-event', '%s', r)
                 for spelling in (name.lower(), name.upper()):
